@@ -269,6 +269,10 @@ impl Model for PerfModel<'_> {
 
 fn check_case(l: &mut Local<'_>, cfg: ModeCfg, map: &Beatmap, setts: &[Setting], depth: usize, desc: &dyn Fn() -> String) {
     for s in setts {
+        // a Difficulty that itself carries passed_objects(k): on maps of <= 4 objects (the protocol does not depend on more)
+        if s.passed.is_some() && map.hit_objects.len() > 4 {
+            continue;
+        }
         let d = s.difficulty(gen::game_mode(cfg.dst));
         let r: Vec<DifficultyAttributes> = {
             let mut g = api::gradual(d.clone(), map, cfg.dst).expect("convertible");
@@ -322,7 +326,7 @@ fn main() {
     for cfg in MODE_CFGS.iter() {
         let kinds = if cfg.src == 3 { vec![Kind::Circle, Kind::Hold(300)] } else { vec![Kind::Circle, Kind::Slider2, Kind::Spinner(600)] };
         let alpha = Alphabet::product(&kinds, &[0, 150], &[PosK::Same], &[0], &[0]);
-        let setts = [Setting::nm(), Setting::bits(settings::DT)];
+        let setts = [Setting::nm(), Setting::bits(settings::DT), Setting { passed: Some(0), ..Setting::nm() }, Setting { passed: Some(1), ..Setting::nm() }, Setting { passed: Some(2), ..Setting::nm() }];
         let total = alpha.count_upto(n_max);
         let name = format!("grammar/{}to{}/N<={}", cfg.src, cfg.dst, n_max);
         ctx.universe(&name, total, |idx, l| {
